@@ -15,12 +15,23 @@ before LF is dropped unchecked, the two bytes after a bulk payload are skipped u
 finding F7); `true` is the code with `/verif/.build/patches/f7.diff` applied (both are checked
 and answer `InvalidProtocol`).  The flag the model runs with is `strictTerm`, which the
 extractor derives from the source on every run.
+
+Two more source-derived switches are constants of the model (theorems never unfold them, so they
+hold for every setting): `maxNesting` (`some MAX_NESTING` since the F16b fix: a `*` at nesting
+depth `>= MAX_NESTING` answers `InvalidProtocol` before its header is read; `none` = the unbounded
+recursion of the original tree) and `capRemaining` (since the F4 fix `parse_array` reserves
+`min(array_size, bytes remaining)` elements instead of `array_size`).
 -/
 namespace Um.Resp
 open Um
 
 /-- which variant of the terminator checks the source tree has (see `tools/extract_resp.py`) -/
 def strictTerm : Bool := Um.Gen.Resp.strictTerm
+
+/-- `MAX_NESTING` (`none`: no limit in the source) -/
+def maxNesting : Option Nat := Um.Gen.Resp.maxNesting
+/-- `Vec::with_capacity(min(array_size, remaining))` instead of `Vec::with_capacity(array_size)` -/
+def capRemaining : Bool := Um.Gen.Resp.capRemaining
 
 def tError : UInt8 := Um.Gen.Resp.tError
 def tSimple : UInt8 := Um.Gen.Resp.tSimple
@@ -191,6 +202,18 @@ exceeds `isize::MAX`.  (Below that bound the allocation is attempted; its failur
 is outside this model: finding F4, property C16.) -/
 def capacityOverflow (n : Nat) : Bool := n * respIndexSize > isizeMax
 
+/-- does `parse_array` panic when it reserves room for `arraySize` elements?  With the capped
+reservation (`capRemaining`) it reserves at most `buf.len() - consumed` elements, which cannot
+overflow for a buffer that exists (`buf.len() * 32 <= isize::MAX`, i.e. below 2^58 bytes — an
+assumption of the model, listed in props.d): no panic.  Without the cap: `capacityOverflow`. -/
+def reservePanics (arraySize : Nat) : Bool := !capRemaining && capacityOverflow arraySize
+
+/-- `depth >= MAX_NESTING` -/
+def nestingExceeded (depth : Nat) : Bool :=
+  match maxNesting with
+  | none => false
+  | some m => decide (m ≤ depth)
+
 /-- `let (mut v, consumed) = …?; v.advance(1); Ok((…, 1 + consumed))`: what every arm of
 `parse_resp` does with the result of its sub-parser -/
 def shift1 (r : PR (RespIdx × Nat)) : PR (RespIdx × Nat) :=
@@ -224,47 +247,52 @@ def parseArrayHeader (strict : Bool) (buf : Bytes) : ArrHdr :=
   | .error e => .err e
   | .ok (len, consumed) =>
     if len < 0 then .nil consumed
-    else if capacityOverflow len.toNat then .err .capacity
+    else if reservePanics len.toNat then .err .capacity
     else .elems len.toNat consumed
 
 mutual
-/-- `parse_resp`; the `*` arm is `parse_array` (header, then the loop `parseElems`).  The fuel
-is a termination device only: `parse` supplies `buf.length + 1`, which is never exhausted. -/
-def parseResp (strict : Bool) : Nat → Bytes → PR (RespIdx × Nat)
-  | 0, _ => .error .fuel
-  | _ + 1, [] => .error .notEnough
-  | f + 1, pfx :: nextBuf =>
+/-- `parse_resp_nested(buf, depth)` (`parse_resp` of the original tree when `maxNesting = none`);
+the `*` arm is `parse_array_nested(next_buf, depth + 1)` (header, then the loop `parseElems`).
+The fuel is a termination device only: `parse` supplies `buf.length + 1`, never exhausted. -/
+def parseResp (strict : Bool) : Nat → Nat → Bytes → PR (RespIdx × Nat)
+  | 0, _, _ => .error .fuel
+  | _ + 1, _, [] => .error .notEnough
+  | f + 1, depth, pfx :: nextBuf =>
     match parseLeaf strict pfx nextBuf with
     | some r => shift1 r
     | none =>
       if pfx = tArr then
-        match parseArrayHeader strict nextBuf with
-        | .err e => .error e
-        | .nil consumed => shift1 (.ok (.arrNil, consumed))
-        | .elems arraySize consumed =>
-          match parseElems strict f nextBuf.length (nextBuf.drop consumed) arraySize consumed with
-          | .error e => .error e
-          | .ok (array, consumed') => shift1 (.ok (.arr array, consumed'))
+        -- if depth >= MAX_NESTING { return Err(InvalidProtocol) }
+        if nestingExceeded depth then .error .invalid
+        else
+          match parseArrayHeader strict nextBuf with
+          | .err e => .error e
+          | .nil consumed => shift1 (.ok (.arrNil, consumed))
+          | .elems arraySize consumed =>
+            match parseElems strict f (depth + 1) nextBuf.length (nextBuf.drop consumed) arraySize consumed with
+            | .error e => .error e
+            | .ok (array, consumed') => shift1 (.ok (.arr array, consumed'))
       else .error .invalid
-/-- the `for _ in 0..array_size` loop of `parse_array`: `rest` is `buf[consumed..]`
-(`bufLen = buf.len()`), `k` the number of elements still to read -/
-def parseElems (strict : Bool) : Nat → Nat → Bytes → Nat → Nat → PR (List RespIdx × Nat)
-  | _, _, _, 0, consumed => .ok ([], consumed)
-  | 0, _, _, _ + 1, _ => .error .fuel
-  | f + 1, bufLen, rest, k + 1, consumed =>
+/-- the `for _ in 0..array_size` loop of `parse_array_nested(buf, depth)`: `rest` is
+`buf[consumed..]` (`bufLen = buf.len()`), `k` the number of elements still to read; every element
+is `parse_resp_nested(next_buf, depth)` -/
+def parseElems (strict : Bool) : Nat → Nat → Nat → Bytes → Nat → Nat → PR (List RespIdx × Nat)
+  | _, _, _, _, 0, consumed => .ok ([], consumed)
+  | 0, _, _, _, _ + 1, _ => .error .fuel
+  | f + 1, depth, bufLen, rest, k + 1, consumed =>
     -- buf.get(consumed..).ok_or(InvalidProtocol)
     if consumed > bufLen then .error .invalid
     else
-      match parseResp strict f rest with
+      match parseResp strict f depth rest with
       | .error e => .error e
       | .ok (v, elementConsumed) =>
-        match parseElems strict f bufLen (rest.drop elementConsumed) k (consumed + elementConsumed) with
+        match parseElems strict f depth bufLen (rest.drop elementConsumed) k (consumed + elementConsumed) with
         | .error e => .error e
         | .ok (vs, total) => .ok (advance consumed v :: vs, total)
 end
 
-/-- `parse_resp(buf)` -/
-def parse (strict : Bool) (buf : Bytes) : PR (RespIdx × Nat) := parseResp strict (buf.length + 1) buf
+/-- `parse_resp(buf)` = `parse_resp_nested(buf, 0)` -/
+def parse (strict : Bool) (buf : Bytes) : PR (RespIdx × Nat) := parseResp strict (buf.length + 1) 0 buf
 
 /-! ## `IndexedResp::decode` / `RespPacket::decode` / `RespVec::decode` (`src/protocol/packet.rs`) -/
 
